@@ -422,8 +422,9 @@ void DAGraphImpl<GraphImpl>::rootAt(Graph::NodeId newRoot)
     propagateDirection_(newRoot);
   else
   {
+    // whether a single node is left without father is for isRooted() to tell:
+    // orientate() leaves one such node per connected component
     GraphImpl::orientate();
-    isRooted_ = true;
   }
 }
 
